@@ -339,14 +339,62 @@ ERRNO = {n: getattr(errno, n) for n in
           'EISDIR', 'EIO', 'EPERM', 'EBADF', 'EBUSY', 'EXDEV', 'EMFILE')}
 
 
+ATTR_FAULTS = {
+    'a_plain': dict(size=5, uid=1, gid=2, permissions=0o100644, atime=10,
+                    mtime=20),
+    'a_empty': {},
+    'a_float_time': dict(atime=1.5, mtime=2.5),
+    'a_owner_bytes': dict(owner=b'alice', group=b'staff', uid=1, gid=2),
+    'a_neg_time': dict(atime=-100, mtime=-100),
+    'a_time_2_32': dict(atime=2**32 + 5, mtime=2**32 + 5),
+    'a_time_2_64': dict(atime=2**64, mtime=2**64),
+    'a_uid_2_32': dict(uid=2**32 + 1, gid=2**32 + 1),
+    'a_uid_neg': dict(uid=-1, gid=-1),
+    'a_size_2_64': dict(size=2**64),
+    'a_size_neg': dict(size=-1),
+    'a_perm_2_32': dict(permissions=2**32),
+    'a_ns_2_32': dict(atime=10, mtime=20, atime_ns=2**32, mtime_ns=5),
+    'a_ns_neg': dict(atime=10, mtime=20, atime_ns=-1),
+    'a_owner_only': dict(owner='alice', group='staff'),
+    'a_owner_surrogate': dict(owner='\udcff', group='g'),
+    'a_type_300': dict(type=300),
+    'a_nlink_2_32': dict(nlink=2**32),
+    'a_size_str': dict(size='12'),
+    'a_ext_bad': dict(extended=[(b'a', 5)]),
+}
+SHAPE_FAULTS = {'s_none': None, 's_int': 42, 's_str': 'text', 's_tuple': (1, 2)}
+NAME_FAULTS = {'n_plain': b'/plain', 'n_str': 'päth', 'n_surrogate': '\udcff',
+               'n_int': 7, 'n_none': None}
+VFS_FAULTS = {'v_plain': dict(bsize=4096, blocks=10), 'v_neg': dict(bsize=-1),
+              'v_2_64': dict(blocks=2**64)}
+
+
+def fault_of(path):
+    base = os.path.basename(path.rstrip(b'/')) if isinstance(path, bytes) \
+        else b''
+    return base[4:].decode() if base.startswith(b'enc_') else None
+
+
 class FaultyServer(asyncssh.SFTPServer):
-    """Real SFTPServer in a chroot; stat() of magic names raises what the
-    name says (errno table, application errors)"""
+    """Real SFTPServer in a chroot.  stat() of magic names raises what the
+    name says (errno table, application errors); paths named enc_<fault>
+    make the application hand back a result of that fault class (extreme
+    values, wrong types, wrong shapes) to the protocol layer."""
 
     root = None
 
     def __init__(self, chan):
         super().__init__(chan, chroot=FaultyServer.root)
+        self._enc = {}
+
+    # ---- results by fault class ----
+    @staticmethod
+    def attrs_for(f):
+        if f in SHAPE_FAULTS:
+            return SHAPE_FAULTS[f]
+        if f in ATTR_FAULTS:
+            return asyncssh.SFTPAttrs(**ATTR_FAULTS[f])
+        return None
 
     def stat(self, path):
         base = os.path.basename(path)
@@ -357,7 +405,84 @@ class FaultyServer(asyncssh.SFTPServer):
             raise asyncssh.SFTPError(int(base[7:]), 'application error')
         if base == b'notimpl':
             raise NotImplementedError
+        f = fault_of(path)
+        if f is not None and (f in ATTR_FAULTS or f in SHAPE_FAULTS):
+            return self.attrs_for(f)
         return super().stat(path)
+
+    def lstat(self, path):
+        f = fault_of(path)
+        if f is not None and (f in ATTR_FAULTS or f in SHAPE_FAULTS):
+            return self.attrs_for(f)
+        return super().lstat(path)
+
+    def open(self, path, pflags, attrs):
+        f = fault_of(path)
+        if f is not None:
+            obj = super().open(b'/f', pflags, attrs)
+            self._enc[id(obj)] = f
+            return obj
+        return super().open(path, pflags, attrs)
+
+    def open56(self, path, desired_access, flags, attrs):
+        f = fault_of(path)
+        if f is not None:
+            obj = super().open56(b'/f', desired_access, flags, attrs)
+            self._enc[id(obj)] = f
+            return obj
+        return super().open56(path, desired_access, flags, attrs)
+
+    def fstat(self, file_obj):
+        f = self._enc.get(id(file_obj))
+        if f is not None and (f in ATTR_FAULTS or f in SHAPE_FAULTS):
+            return self.attrs_for(f)
+        return super().fstat(file_obj)
+
+    def fstatvfs(self, file_obj):
+        f = self._enc.get(id(file_obj))
+        if f in VFS_FAULTS:
+            return asyncssh.SFTPVFSAttrs(**VFS_FAULTS[f])
+        if f in SHAPE_FAULTS:
+            return SHAPE_FAULTS[f]
+        return super().fstatvfs(file_obj)
+
+    def statvfs(self, path):
+        f = fault_of(path)
+        if f in VFS_FAULTS:
+            return asyncssh.SFTPVFSAttrs(**VFS_FAULTS[f])
+        if f in SHAPE_FAULTS:
+            return SHAPE_FAULTS[f]
+        return super().statvfs(path)
+
+    def readlink(self, path):
+        f = fault_of(path)
+        if f in NAME_FAULTS:
+            return NAME_FAULTS[f]
+        return super().readlink(path)
+
+    def realpath(self, path):
+        f = fault_of(path)
+        if f in NAME_FAULTS:
+            return NAME_FAULTS[f]
+        return super().realpath(path)
+
+    async def scandir(self, path):
+        f = fault_of(path)
+        if f is None:
+            async for name in super().scandir(path):
+                yield name
+            return
+        ok = asyncssh.SFTPAttrs(size=1, permissions=0o100644)
+        yield asyncssh.SFTPName(b'first', attrs=ok)
+        if f in SHAPE_FAULTS:
+            yield SHAPE_FAULTS[f]
+        elif f in ATTR_FAULTS:
+            yield asyncssh.SFTPName(b'second', attrs=self.attrs_for(f))
+        elif f == 'n_longname_int':
+            yield asyncssh.SFTPName(b'second', 5, ok)
+        elif f in NAME_FAULTS:
+            yield asyncssh.SFTPName(NAME_FAULTS[f], attrs=ok)
+        yield asyncssh.SFTPName(b'third', attrs=ok)
 
 
 class RawSession:
@@ -454,6 +579,19 @@ class ServerWorld:
             f.write(b'x')
         if not os.path.lexists(os.path.join(self.root, 'l')):
             os.symlink('f', os.path.join(self.root, 'l'))
+        # real files whose metadata the wire formats cannot (all) express
+        self.real = {}
+        os.makedirs(os.path.join(self.root, 'rd'), exist_ok=True)
+        for name, t in (('real_neg', -100), ('real_far', 2**32 + 5)):
+            for p in (os.path.join(self.root, name),
+                      os.path.join(self.root, 'rd', name)):
+                with open(p, 'wb') as f:
+                    f.write(b'x')
+                try:
+                    os.utime(p, (t, t))
+                    self.real[name] = int(os.stat(p).st_mtime) == t
+                except (OSError, OverflowError):
+                    self.real[name] = False
 
     async def _start(self):
         self.acceptor = await asyncssh.listen(
@@ -664,6 +802,12 @@ def server_case(sw, sess, case, n):
         if len(mine) != case['replies']:
             r['l1'].append(('ExactlyOneReply', f'{len(mine)} replies carry '
                             f'the id of the request'))
+        for t_, b_ in mine:
+            bad = check_body(t_, b_, v, case['t'])
+            if bad:
+                r['l1'].append(('WellFormedReply', f'the reply does not '
+                                f'parse as a v{v} body of its type: {bad} '
+                                f'[type={t_} body={b_[:48].hex()}]'))
         for c in r['classes']:
             if c not in case['types']:
                 r['l1'].append(('TypeLegal', f'reply {c} is not legal for '
@@ -679,6 +823,203 @@ def server_case(sw, sess, case, n):
             sess = sw.session(v)
         out.append(r)
     return sess, out
+
+
+# ---- independent decoder of reply bodies (own framing code, per version) ----
+VALID_FLAGS = {3: 0x8000000f, 4: 0x800001fd, 5: 0x800003fd, 6: 0x8000fffd}
+
+
+def _utf8(b):
+    b.decode('utf-8')
+
+
+def parse_attrs(cur, v):
+    flags = cur.u32()
+    if flags & ~VALID_FLAGS[v]:
+        raise ValueError(f'attribute flags 0x{flags:08x} not defined in v{v}')
+    if v >= 4:
+        if not 1 <= cur.u8() <= 9:
+            raise ValueError('file type byte out of range')
+    if flags & 0x1:
+        cur.u64()
+    if flags & 0x400:
+        cur.u64()
+    if v == 3:
+        if flags & 0x2:
+            cur.u32(), cur.u32()
+    elif flags & 0x80:
+        _utf8(cur.str()), _utf8(cur.str())
+    if flags & 0x4:
+        cur.u32()
+    if v == 3:
+        if flags & 0x8:
+            cur.u32(), cur.u32()
+    else:
+        for bit in (0x8, 0x10, 0x20, 0x8000):
+            if flags & bit:
+                cur.u64()
+                if flags & 0x100:
+                    if cur.u32() >= 10**9:
+                        raise ValueError('nanoseconds >= 1e9')
+    if flags & 0x40:
+        cur.str()
+    if flags & 0x200:
+        cur.u32(), cur.u32()
+    if flags & 0x800:
+        cur.u8()
+    if flags & 0x1000:
+        _utf8(cur.str())
+    if flags & 0x2000:
+        cur.u32()
+    if flags & 0x4000:
+        cur.str()
+    if flags & 0x80000000:
+        for _ in range(cur.u32()):
+            cur.str(), cur.str()
+
+
+def _end(cur, what):
+    if cur.i != len(cur.d):
+        raise ValueError(f'{len(cur.d) - cur.i} stray bytes after {what}')
+
+
+def _opt_bool(cur, v):
+    if v >= 6 and cur.i < len(cur.d):
+        if cur.u8() > 1:
+            raise ValueError('end-of-data flag is not a boolean')
+
+
+def check_body(ptype, body, v, t=None):
+    """None if `body` (after the request id) is a well-formed body of reply
+    type `ptype` in version v, else what is wrong with it"""
+    cur = Cur(body)
+    try:
+        if ptype == STATUS:
+            code = cur.u32()
+            if code > 31:
+                raise ValueError(f'status code {code}')
+            _utf8(cur.str())
+            cur.str().decode('ascii')
+            if v < 6:
+                _end(cur, 'status')
+        elif ptype == HANDLE:
+            if len(cur.str()) > 256:
+                raise ValueError('handle longer than 256 bytes')
+            _end(cur, 'handle')
+        elif ptype == DATA:
+            cur.str()
+            _opt_bool(cur, v)
+            _end(cur, 'data')
+        elif ptype == NAME:
+            for _ in range(cur.u32()):
+                cur.str()
+                if v == 3:
+                    cur.str()
+                parse_attrs(cur, v)
+            _opt_bool(cur, v)
+            _end(cur, 'names')
+        elif ptype == ATTRS:
+            parse_attrs(cur, v)
+            _end(cur, 'attrs')
+        elif ptype == EXTENDED_REPLY:
+            if t in ('x_statvfs', 'x_fstatvfs'):
+                for _ in range(11):
+                    cur.u64()
+                _end(cur, 'statvfs reply')
+            elif t == 'x_limits':
+                for _ in range(4):
+                    cur.u64()
+                _end(cur, 'limits reply')
+            elif t == 'x_ranges':
+                for _ in range(cur.u32()):
+                    cur.u64(), cur.u64()
+                if cur.u8() > 1:
+                    raise ValueError('at-end flag is not a boolean')
+                _end(cur, 'ranges reply')
+        else:
+            return f'reply type {ptype} is not a response type'
+    except (struct.error, IndexError, ValueError, UnicodeDecodeError) as exc:
+        return f'{type(exc).__name__}: {exc}'
+    return None
+
+
+def unenc_request(sess, v, t, f):
+    """(packet type, body) of the request of kind t whose result is of fault
+    class f; None if a prerequisite (open) failed"""
+    path = f.encode() if f.startswith('real_') else b'enc_' + f.encode()
+    if f == 'real_dir':
+        path = b'rd'
+    fl = u32(0xfd) if v >= 4 else b''
+    if t in ('stat', 'lstat'):
+        return TYPE_NUM[t], sstr(path) + fl
+    if t in ('fstat', 'x_fstatvfs'):
+        r = sess.exchange(3, open_body(v, path))
+        if not r or r[0] != HANDLE:
+            return None
+        h = Cur(r[1]).str()
+        if t == 'fstat':
+            return 8, sstr(h) + fl
+        return EXTENDED, sstr(EXT_NAMES[t]) + sstr(h)
+    if t == 'readdir':
+        r = sess.exchange(11, sstr(path))
+        if not r or r[0] != HANDLE:
+            return None
+        return 12, sstr(Cur(r[1]).str())
+    if t == 'realpath':
+        return 16, sstr(path) + (b'\x01' if v >= 6 else b'')
+    if t == 'realpath_stat':
+        return 16, sstr(path) + (b'\x03' if v >= 6 else b'')
+    if t == 'readlink':
+        return 19, sstr(path)
+    if t == 'x_statvfs':
+        return EXTENDED, sstr(EXT_NAMES[t]) + sstr(path)
+    raise ValueError(t)
+
+
+def unenc_case(sw, sess, v, t, f, legal):
+    """The handler succeeds with a result of fault class f.  Returns
+    (session, result dict)"""
+    req = unenc_request(sess, v, t, f)
+    r = {'v': v, 't': t, 'f': f, 'l1': [], 'sent': None}
+    if req is None:
+        r['skipped'] = 'prerequisite open failed'
+        return sess, r
+    ptype, body = req
+    r['ptype'], r['body'] = ptype, body.hex()
+    rid = sess.request(ptype, body)
+    pid = sess.request(16, sstr(b'.') + (b'\x01' if v >= 6 else b''))
+    sess.loop.run_until_idle()
+    mine, probe, other = [], [], []
+    for pt, b in sess.packets():
+        i = struct.unpack('>I', b[:4])[0] if len(b) >= 4 else None
+        (mine if i == rid else probe if i == pid else other).append(
+            (pt, b[4:] if len(b) >= 4 else b))
+    r['replies'] = len(mine)
+    if len(mine) != 1:
+        r['l1'].append(('ExactlyOneReply', f'{len(mine)} replies carry the '
+                        f'id of the request'))
+    if other:
+        r['l1'].append(('ExactlyOneReply', f'{len(other)} replies with ids '
+                        f'nobody asked for'))
+    tname = 'x_statvfs' if t.startswith('x_') else t
+    for pt, b in mine:
+        cls, code = classify(pt, b)
+        r['sent'] = cls
+        r['code'] = code
+        if cls not in legal:
+            r['l1'].append(('TypeLegal', f'reply {cls} is not legal for this '
+                            f'request (legal: {sorted(legal)})'))
+        bad = check_body(pt, b, v, tname)
+        if bad:
+            r['l1'].append(('WellFormedReply', f'the {cls} reply does not '
+                            f'parse as a v{v} {cls} body: {bad} '
+                            f'[body={b[:48].hex()}]'))
+    if not (len(probe) == 1 and probe[0][0] == NAME):
+        r['l1'].append(('ErrorNotFatal', 'the session did not answer the '
+                        'next request'))
+        sess.close()
+        sess = sw.session(v)
+    return sess, r
 
 
 def errno_case(sess, v, name=None, code=None):
